@@ -170,3 +170,154 @@ Definition objs (t : list lc) : list Z := map obj t.
 Definition objs3 (l : list (Z * Z * Z)) : list Z := concat (map (fun b => let '(a, b, c) := b in [a; b; c]) l).
 Definition objs4 (l : list (Z * Z * Z * Z)) : list Z := concat (map (fun b => let '(a, b, c, d) := b in [a; b; c; d]) l).
 Definition olist (x : option Z) : list Z := match x with Some a => [a] | None => [] end.
+
+(* ================================================================================================
+   The response writer's slot (net/responsewriter) and the code that works on it.
+
+   A receive path owns two messages when it starts: the received message m and the message w it put into
+   the response writer.  The code between `responsewriter.New` and the deferred `ReleaseMessage(w.Message())`
+   acquires further messages and does one of six things with a message it has: install it in the writer
+   (SetMessage: the REPLACED message is released at once, the installed one belongs to the writer from then
+   on), swap it in (Swap: nothing is released, the replaced message is the code's again), release it by hand,
+   lend it to the application (`next(w, o)` with a handler), or let it go without a release (hijacked by a
+   waiting caller, stored in a cache, left to the GC).  A writer program is the sequence of these operations;
+   `wtrace` is the lifecycle trace it produces, `wdisc` the ownership discipline: every operation applies to
+   a message the code HAS (acquired or swapped out, and not yet released, installed or given away).
+   Pool/Writer.v proves: a disciplined program produces an accepted trace, whatever it does. *)
+Inductive wop :=
+| WAcq (o : Z)    (* o := AcquireMessage() / taken out of a cache: a message nobody else touches *)
+| WRel (o : Z)    (* cc.ReleaseMessage(o) by hand *)
+| WSet (o : Z)    (* w.SetMessage(o) *)
+| WSwap (o : Z)   (* old := w.Swap(o) *)
+| WLend (o : Z)   (* next(w, o): an application handler holds o for the duration of the call *)
+| WGive (o : Z)   (* o leaves the code's hands without a release (hijacked, cached, left to the GC) *)
+| WEnd.           (* the receive path's deferred ReleaseMessage(w.Message()) *)
+
+Fixpoint wtrace (cur : Z) (ops : list wop) : list lc :=
+  match ops with
+  | [] => []
+  | WAcq _ :: r => wtrace cur r
+  | WRel o :: r => rel o ++ wtrace cur r
+  | WSet o :: r => rel cur ++ wtrace o r
+  | WSwap o :: r => wtrace o r
+  | WLend o :: r => handler_use o ++ wtrace cur r
+  | WGive _ :: r => wtrace cur r
+  | WEnd :: r => rel cur ++ wtrace cur r
+  end.
+
+Definition zmem (o : Z) (l : list Z) : bool := existsb (Z.eqb o) l.
+Definition zdel (o : Z) (l : list Z) : list Z := filter (fun x => negb (x =? o)) l.
+
+(* cur = the writer's message, ended = the writer's message has been given back (WEnd), own = what the code has,
+   seen = every message that occurred so far *)
+Fixpoint wdisc (cur : Z) (ended : bool) (own seen : list Z) (ops : list wop) : bool :=
+  match ops with
+  | [] => true
+  | WAcq o :: r => negb (zmem o seen) && wdisc cur ended (o :: own) (o :: seen) r
+  | WRel o :: r => zmem o own && wdisc cur ended (zdel o own) seen r
+  | WSet o :: r => negb ended && zmem o own && wdisc o ended (zdel o own) seen r
+  | WSwap o :: r => negb ended && zmem o own && wdisc o ended (cur :: zdel o own) seen r
+  | WLend o :: r => zmem o own && wdisc cur ended own seen r
+  | WGive o :: r => zmem o own && wdisc cur ended (zdel o own) seen r
+  | WEnd :: r => negb ended && wdisc cur true own seen r
+  end.
+
+(* renaming of the objects of a trace *)
+Definition ren (f : Z -> Z) (e : lc) : lc :=
+  match e with
+  | Rel o => Rel (f o) | Rec o => Rec (f o) | Reacq o b => Reacq (f o) b
+  | Hold o => Hold (f o) | Unhold o b => Unhold (f o) b | AppRel o => AppRel (f o)
+  end.
+Definition env_f (env : list Z) (i : Z) : Z := nth (Z.to_nat i) env 0.
+
+(* ---- ProcessReceivedMessageWithHandler with net/blockwise in the dispatch chain (udp/client.Conn.handle ->
+   BlockWise.Handle -> handleReceivedMessage -> processReceivedMessage | continueSendingMessage, then
+   sendEntityIncomplete on an error of handleReceivedMessage), one received message ----
+
+   What can be observed of one run: which return point was taken (`bw_kind`: the error class reported through
+   the errors callback, who was handed a message, what went out), whether a call with the message's token is
+   outstanding (then getSentRequest returns a copy that is released when processReceivedMessage returns - but only
+   once a block option has been decoded), whether a reassembly entry for the token exists in
+   receivingMessagesCache, whether the message written at the end was confirmable (writeMessageAsync then
+   makes, stores, deletes and releases a private copy), and whether the object of the received message still
+   carries the Hijack flag of an earlier life.
+   Objects: 0 = w (the writer's first message), 1 = m (received), 2 = copy of the sent request, 3 = the
+   next-block request / 2.31 / next block to send, 4 = the 4.08 of sendEntityIncomplete, 5 = the reassembled
+   message (receivingMessagesCache), 6 = the private copy of a confirmable write. *)
+Inductive dlv := DLend | DHijack.   (* next(w, o): an application handler / the token handler of a waiting caller (Hijack) *)
+Inductive bw_kind :=
+| KForward (d : dlv)          (* next(w, r) with the received message itself *)
+| KComplete (d : dlv)         (* last block appended: next(w, cached) *)
+| KNext                       (* a block stored; request for the next block (or 2.31) installed with SetMessage *)
+| KErrEarly                   (* error before the reassembly entry is touched *)
+| KErrLate (s_acquired : bool)(* error after it (entry dropped); s_acquired: the next-block request had been acquired *)
+| KContNext                   (* continueSendingMessage: next block of OUR body installed with SetMessage *)
+| KContErr (s_acquired : bool)(* continueSendingMessage failed (no 4.08) *)
+| KSilent                     (* nothing dispatched, nothing written: an empty ACK/RST that Conn.handle drops *)
+| KOther.                     (* anything else: the model has no such path *)
+
+Definition bw_deliver (d : dlv) (o : Z) (keep : bool) : list wop :=
+  match d with
+  | DLend => if keep then [WLend o] else [WLend o; WGive o]   (* a reassembled request is never released: left to the GC *)
+  | DHijack => [WGive o]
+  end.
+
+Definition bw_receive_ops (k : bw_kind) (sr has_entry wrote_con stale : bool) : option (list wop) :=
+  let pre := if sr then [WAcq 2] else [] in
+  let post := if sr then [WRel 2] else [] in     (* defer b.cc.ReleaseMessage(sentRequest) *)
+  let mk := if has_entry then [] else [WAcq 5; WGive 5] in   (* getCachedReceivedMessage: new entry *)
+  let e408 := [WAcq 4; WSet 4] in                (* sendEntityIncomplete *)
+  let body :=
+    match k with
+    | KForward d => Some (pre ++ bw_deliver d 1 true ++ post, match d with DLend => true | DHijack => false end)
+    | KComplete d => if has_entry then Some (pre ++ [WAcq 5] ++ bw_deliver d 5 false ++ post, true) else None
+    | KNext => Some (pre ++ mk ++ [WAcq 3; WSet 3] ++ post, true)
+    | KErrEarly => Some (pre ++ post ++ e408, true)
+    | KErrLate sa => Some (pre ++ mk ++ (if sa then [WAcq 3; WRel 3] else []) ++ post ++ e408, true)
+    | KContNext => Some ([WAcq 3; WSet 3], true)
+    | KContErr sa => Some ((if sa then [WAcq 3; WRel 3] else []), true)
+    | KSilent => Some ([], true)
+    | KOther => None
+    end in
+  match body with
+  | Some (ops, m_ours) =>
+      (* `if !req.IsHijacked() { ReleaseMessage(req) }`: the Hijack flag is never cleared, so a message object that was
+         handed to a caller in an EARLIER life (stale) is not released by the receive path either: left to the GC *)
+      Some (ops ++ (if wrote_con then [WAcq 6; WRel 6] else []) ++ [WEnd] ++ (if m_ours && negb stale then [WRel 1] else []))
+  | None => None
+  end.
+
+(* the path over arbitrary objects env = [w; m; sr; s; e; cached; clone] *)
+Definition path_bw_receive (k : bw_kind) (sr has_entry wrote_con stale : bool) (env : list Z) : list lc :=
+  match bw_receive_ops k sr has_entry wrote_con stale with
+  | Some ops => map (ren (env_f env)) (wtrace 0 ops)
+  | None => []
+  end.
+
+(* the regression this model was extended for: the next-block request is installed in the writer right after it
+   was acquired, and the early return "cannot restart blockwise response" still releases it by hand *)
+Definition bw_early_install_restart_ops (sr has_entry wrote_con : bool) : list wop :=
+  (if sr then [WAcq 2] else []) ++ (if has_entry then [] else [WAcq 5; WGive 5]) ++ [WAcq 3; WSet 3; WRel 3] ++
+  (if sr then [WRel 2] else []) ++ [WAcq 4; WSet 4] ++ (if wrote_con then [WAcq 6; WRel 6] else []) ++ [WEnd; WRel 1].
+
+(* receivingMessagesCache as far as the lifecycle depends on it: the tokens that have an entry *)
+Definition bw_entries_after (k : bw_kind) (tok : Z) (entries : list Z) : list Z :=
+  match k with
+  | KNext => if zmem tok entries then entries else tok :: entries
+  | KComplete _ | KErrLate _ => zdel tok entries
+  | _ => entries
+  end.
+
+(* continueSendingMessage failed: BlockWise.Handle deletes the call's entry in sendingMessagesCache although the
+   call goes on waiting - from then on getSentRequest finds nothing for its token.  calls are numbered 1, 2, ...
+   in the order in which the application started them (0 = no call with the datagram's token is in progress) *)
+Definition bw_dead_after (k : bw_kind) (call : Z) (dead : list Z) : list Z :=
+  match k with KContErr _ => call :: dead | _ => dead end.
+Definition bw_has_sent_request (call : Z) (blk : bool) (dead : list Z) : bool :=
+  negb (call =? 0) && blk && negb (zmem call dead).
+
+(* one received datagram as observed: token, the call with this token that is in progress, the datagram carries a
+   decodable block option of the kind looked at, return point, the final write was confirmable, the received
+   message's object was hijacked in an earlier life, size of receivingMessagesCache afterwards, lifecycle events
+   recorded while ProcessReceivedMessageWithHandler ran *)
+Inductive bw_step := BwStep (tok call : Z) (blk : bool) (k : bw_kind) (wrote_con stale : bool) (entries : Z) (window : list lc).
